@@ -14,6 +14,7 @@ package interp
 import (
 	"fmt"
 	"go/types"
+	"strings"
 )
 
 type hashable interface {
@@ -33,6 +34,7 @@ type omap struct {
 	idx     map[interface{}][]int // hash key -> entry indices
 	n       int
 	symKeys int // live entries whose key holds symbolic data
+	typ     string
 }
 
 func makeMap(kt types.Type, reserve int64) value {
@@ -185,7 +187,7 @@ type omapIter struct {
 
 func newMapIter(m *omap) *omapIter {
 	it := &omapIter{m: m}
-	if ex != nil && ex.nondetMap && m.len() >= 2 {
+	if ex != nil && ex.nondetMap && m.len() >= 2 && m.len() <= ex.nondetMapMax && strings.Contains(m.typ, ex.nondetMapType) {
 		it.nd = true
 		it.rest = m.live()
 	}
